@@ -267,6 +267,19 @@ func (g *gen) constraint() string {
 			}
 		}
 	}
+	if (op == "in" || op == "notIn" || len(vs) > 0) && r.Bool(1, 5) {
+		// a value list that contains the empty string (adjustRule validates only the op): `in` must still be false and
+		// `notIn` true for a store without the label
+		vs = append(vs, "")
+		if len(vs) > 1 && r.Bool(1, 2) {
+			vs[0], vs[len(vs)-1] = vs[len(vs)-1], vs[0]
+		}
+		if len(vs) == 1 {
+			vs = append(vs, "") // "|" on the wire: the list ["", ""]
+		}
+		g.hist["constraint-with-empty-value"]++
+	}
+	g.hist["op:"+op]++
 	return k + ":" + op + ":" + strings.Join(vs, "|")
 }
 
@@ -417,7 +430,7 @@ func (g *gen) sequence(maxFits int) {
 
 // ---------------------------------------------------------------------------------------------
 // exhaustive small domain: 3 stores x label layouts, every placement of <= 3 peers (voter/learner,
-// leader choice), every rule of a 120-rule grammar and every pair of a 20-rule grammar (400 pairs).
+// leader choice), every rule of a 168-rule grammar and every pair of a 20-rule grammar (400 pairs).
 
 var exhLayouts = []string{"zone=z1", "zone=z2", "zone=z1,$x=1", "-"}
 
@@ -425,7 +438,7 @@ func exhRules(small bool) []string {
 	var out []string
 	roles := []string{"voter", "leader", "follower", "learner"}
 	counts := []int{1, 2, 3}
-	cons := []string{"-", "zone:in:z1", "zone:notIn:z1", "$x:exists:", "zone:notExists:"}
+	cons := []string{"-", "zone:in:z1", "zone:notIn:z1", "$x:exists:", "zone:notExists:", "zone:in:z1|", "zone:notIn:|z2"}
 	locs := []string{"-", "zone"}
 	if small {
 		counts = []int{1, 2}
